@@ -78,7 +78,15 @@ static bool fixture(S &s, const Params &p, int needs) {
     if (cm::to_cif(comp, &v) != CIF_OK) return false;
     bool ok = cif_container_set_value(s.blk, U(u"_s1"), v) == CIF_OK && cif_container_set_value(s.blk, U(u"_s2"), nullptr) == CIF_OK
               && cif_container_create_loop(s.blk, U(u"c"), n3, &s.loop) == CIF_OK && cif_packet_create(&s.pkt, n3) == CIF_OK;
-    for (int i = 0; ok && i < 3; i++) { ok = cif_packet_set_item(s.pkt, U(u"_l2"), i == 1 ? v : nullptr) == CIF_OK && cif_loop_add_packet(s.loop, s.pkt) == CIF_OK; }
+    for (int i = 0; ok && i < 3; i++) {   // every cell distinct, so that a packet assembled from the wrong rows is recognisable
+        cif_value_tp *a = nullptr, *c = nullptr;
+        ok = cif_value_create(CIF_UNK_KIND, &a) == CIF_OK && cif_value_create(CIF_UNK_KIND, &c) == CIF_OK
+             && cif_value_copy_char(a, (const UChar *) vh::u16("row" + std::to_string(i) + "-first").c_str()) == CIF_OK
+             && cif_value_copy_char(c, (const UChar *) vh::u16("row" + std::to_string(i) + "-third").c_str()) == CIF_OK
+             && cif_packet_set_item(s.pkt, U(u"_l1"), a) == CIF_OK && cif_packet_set_item(s.pkt, U(u"_l3"), c) == CIF_OK
+             && cif_packet_set_item(s.pkt, U(u"_l2"), i == 1 ? v : nullptr) == CIF_OK && cif_loop_add_packet(s.loop, s.pkt) == CIF_OK;
+        cif_value_free(a); cif_value_free(c);
+    }
     cif_value_free(v);
     ok = ok && cif_container_create_frame(s.blk, U(u"f"), &s.frame) == CIF_OK && cif_container_set_value(s.frame, U(u"_f1"), nullptr) == CIF_OK
          && cif_container_get_category_loop(s.blk, U(u""), &s.sloop) == CIF_OK;
@@ -242,6 +250,21 @@ static std::string snapshot(S &s) {
     return o;
 }
 
+static std::string pkt_ser(cif_packet_tp *p) {
+    if (!p) return "-";
+    const UChar **names = nullptr; std::string o;
+    if (cif_packet_get_names(p, &names) != CIF_OK) return "<names unreadable>";
+    for (const UChar **n = names; *n; n++) { cif_value_tp *v = nullptr; Value m; o += uesc(cm::norm_name(ustr((const char16_t *) *n))) + "="; o += (cif_packet_get_item(p, *n, &v) == CIF_OK && cm::from_cif(v, m) == CIF_OK) ? cm::ser(m) : std::string("?"); o += ","; }
+    cm::ufree(names);
+    return o;
+}
+// the packet a cif_pktitr_next_packet scenario delivers into (nullptr for every other scenario)
+static cif_packet_tp *delivered(S &s, const Scenario &sc) {
+    if (strncmp(sc.name, "cif_pktitr_next_packet", 22) != 0) return nullptr;
+    if (strstr(sc.name, "(new)")) return (cif_packet_tp *) s.out_ptr;
+    if (strstr(sc.name, "(reuse)")) return s.pkt;
+    return s.pkt2;
+}
 static long g_fail_k = 0;   // fault index at which the last failing run_case stopped (recorded into the replay case)
 static std::string run_case(const CaseFile &c) {
     install_sqlite_hook();
@@ -258,13 +281,14 @@ static std::string run_case(const CaseFile &c) {
     CaseGuard guard;
     std::string msg;
     // 1. fault-free reference run
-    long n_lib = 0, n_sql = 0; int r0; std::string post0;
+    long n_lib = 0, n_sql = 0; int r0; std::string post0, ref_pkt;
     {
         S s; if (!prepare(s, sc, p)) { count_excluded("fixture"); return guard.check(); }
         if (sc.needs & 2) { /* iterator open: snapshot of the CIF is not taken while it is open */ }
         verif_reset_count(); g_sq_count = 0;
         r0 = sc.call(s, p);
         n_lib = verif_total(); n_sql = g_sq_count;
+        if (delivered(s, sc)) ref_pkt = pkt_ser(delivered(s, sc));
         sc.release(s); s.out_ptr = nullptr;
         if (s.it && (sc.needs & 2048)) { int cr = cif_pktitr_close(s.it); s.it = nullptr; if (cr != CIF_OK) return std::string("scenario ") + sc.name + ": the iterator cannot be closed without faults: " + cm::code_name(cr); }
         if (s.it) { (void) cif_pktitr_abort(s.it); s.it = nullptr; }
@@ -329,6 +353,16 @@ static std::string run_case(const CaseFile &c) {
             }
         } else {
             // iterator scenarios: the iterator (if it still exists) can be aborted and the CIF read afterwards
+            if (s.it && !ref_pkt.empty() && !sqlite_side) {
+                // cif_pktitr_next_packet failed for lack of memory: repeated with memory available it succeeds and delivers the packet
+                // the failed call should have delivered (not one assembled from whatever rows the failed call left unread)
+                int rr = sc.call(s, p);
+                std::string got = delivered(s, sc) ? pkt_ser(delivered(s, sc)) : std::string("-");
+                sc.release(s); s.out_ptr = nullptr;
+                if (rr != r0) msg = at + "failed with " + cm::code_name(rc) + "; the same call repeated with memory available returned " + cm::code_name(rr);
+                else if (got != ref_pkt) msg = at + "failed with " + cm::code_name(rc) + "; the same call repeated with memory available delivered another packet\n--- fault-free\n" + ref_pkt + "\n--- retried\n" + got;
+                if (!msg.empty()) break;
+            }
             if (s.it && (sc.needs & 2048) && sqlite_side) {
                 // a statement that runs out of memory inside the storage engine makes SQLite roll back the WHOLE active transaction
                 // (sqlite3VdbeHalt: "we are forced to roll back the active transaction") -- the iterator's transaction with it; nothing
